@@ -16,6 +16,7 @@ import (
 	"net/http"
 	"os"
 	"strconv"
+	"strings"
 	"testing"
 
 	"github.com/nuts-foundation/go-did/vc"
@@ -149,6 +150,59 @@ func TestVerifC19(t *testing.T) {
 		return string(b)
 	}
 
+	// update(url), modelled (NutsModel/C19/StatusList.lean): what go-did's accessors say about the downloaded credential is data
+	const slURL = "https://example.com/statuslist/did:web:example.com/1"
+	updateOp := func(status int, body []byte) {
+		var downloaded any
+		var cred vc.VerifiableCredential
+		expandMap := map[string]any{}
+		if status != 0 && status <= 299 && json.Unmarshal(body, &cred) == nil { // (download only refuses status codes > 299)
+			var subs []StatusList2021CredentialSubject
+			var subsJSON any
+			if cred.UnmarshalCredentialSubject(&subs) == nil {
+				l := []any{}
+				for _, s := range subs {
+					l = append(l, map[string]any{"id": s.ID, "type": s.Type, "purpose": s.StatusPurpose, "list": c19Show(s.EncodedList)})
+					if bs, err := expand(s.EncodedList); err == nil {
+						expandMap[c19Show(s.EncodedList)] = len(bs)
+					}
+				}
+				subsJSON = l
+			}
+			var exp any
+			if cred.ExpirationDate != nil {
+				exp = cred.ExpirationDate.IsZero()
+			}
+			downloaded = map[string]any{"hasVCContext": cred.ContainsContext(vc.VCContextV1URI()), "hasSLContext": cred.ContainsContext(StatusList2021ContextURI),
+				"isVCType": cred.IsType(vc.VerifiableCredentialTypeV1URI()), "isSLCType": cred.IsType(statusList2021CredentialTypeURI), "nTypes": len(cred.Type),
+				"idNil": cred.ID == nil, "issuanceZero": cred.IssuanceDate.IsZero(), "jsonldWithoutProof": cred.Format() == vc.JSONLDCredentialProofFormat && cred.Proof == nil,
+				"hasStatus": cred.CredentialStatus != nil, "subjects": subsJSON, "expiration": exp}
+		}
+		fake.status, fake.body = status, body
+		res := c19Guard(func() string {
+			rec, err := cs.update(slURL)
+			if err != nil {
+				m := err.Error()
+				for _, p := range [][2]string{{"default context is required", "validate:ctx1"}, {"context 'https://w3id.org/vc/status-list/2021/v1' is required", "validate:ctx2"},
+					{"type 'VerifiableCredential' is required", "validate:type1"}, {"contains other types", "validate:types"}, {"'ID' is required", "validate:id"},
+					{"issuanceDate is required", "validate:issuance"}, {"'proof' is required", "validate:proof"}, {"with a CredentialStatus is not supported", "validate:status"},
+					{"single credentialSubject expected", "validate:single"}, {"credentialSubject.type '", "validate:stype"}, {"statusPurpose is required", "validate:purpose"},
+					{"encodedList is required", "validate:list"}, {"type '", "validate:type2"}, {"encodedList is invalid", "expand"}, {"wrong credential", "wrong credential"},
+					{"fetching StatusList2021Credential", "download"}, {"connection refused", "download"}} {
+					if strings.Contains(m, p[0]) {
+						return "err:" + p[1]
+					}
+				}
+				if downloaded == nil {
+					return "err:download"
+				}
+				return "err:validate:subject-unmarshal"
+			}
+			return fmt.Sprintf("ok purpose=%s bytes=%d expires=%v", rec.StatusPurpose, len(rec.Bitstring), rec.Expires != nil)
+		})
+		o.emit(map[string]any{"op": "slc.update", "url": slURL, "downloaded": downloaded, "expand": expandMap, "body": c19Short(string(body), 3000), "status": status}, c19Class(res))
+	}
+
 	replay, isReplay := c19ReadOps()
 	for _, op := range replay {
 		switch op["op"] {
@@ -163,6 +217,11 @@ func TestVerifC19(t *testing.T) {
 		case "x.revocation.statusListCredential":
 			in, _ := op["input"].(string)
 			o.explore("revocation.statusListCredential", in, func() string { return slcPath(in) })
+		case "slc.update":
+			b, _ := op["body"].(string)
+			st, _ := op["status"].(json.Number)
+			n, _ := st.Int64()
+			updateOp(int(n), []byte(b))
 		case "x.revocation.Verify":
 			in, _ := op["input"].(string)
 			o.explore("revocation.Verify", in, func() string { return verifyPath(in) })
@@ -262,7 +321,33 @@ func TestVerifC19(t *testing.T) {
 			runV(verifyIn(200, valid(e), idx), "encodedList-variant×index")
 		}
 	}
-	jsystematic(valid(enc), func(b []byte, kind string) { runV(verifyIn(200, b, "5"), kind) })
+	jsystematic(valid(enc), func(b []byte, kind string) { runV(verifyIn(200, b, "5"), kind); o.dist["slc.update:"+kind]++; updateOp(200, b) })
+	for _, st := range []int{0, 199, 200, 299, 300, 500} {
+		updateOp(st, valid(enc))
+	}
+	// optional members missing / null / zero; subject arrays of 0, 1, 2 elements
+	for _, variant := range [][2]string{{`"expirationDate":"2034-01-01T00:00:00Z",`, ``}, {`"expirationDate":"2034-01-01T00:00:00Z"`, `"expirationDate":null`},
+		{`"expirationDate":"2034-01-01T00:00:00Z"`, `"expirationDate":"0001-01-01T00:00:00Z"`}, {`"validFrom":"2024-01-01T00:00:00Z",`, ``}} {
+		b := bytesReplace(valid(enc), variant[0], variant[1])
+		o.dist["slc.update:optional-member"]++
+		updateOp(200, b)
+		runV(verifyIn(200, b, "5"), "optional-member")
+	}
+	{
+		root, _ := jparse(valid(enc))
+		for i, k := range root.keys {
+			if k == "credentialSubject" {
+				one := root.kids[i].clone()
+				for _, shape := range []*jnode{{kind: 'a'}, {kind: 'a', kids: []*jnode{one.clone()}}, {kind: 'a', kids: []*jnode{one.clone(), one.clone()}}, {kind: 'a', kids: []*jnode{{kind: 'n'}}}, {kind: 'a', kids: []*jnode{{kind: 'a'}}}} {
+					c := root.clone()
+					c.kids[i] = shape
+					o.dist["slc.update:subject-array-shape"]++
+					updateOp(200, c.bytes())
+					runV(verifyIn(200, c.bytes(), "5"), "subject-array-shape")
+				}
+			}
+		}
+	}
 	for i := 0; i < nRand; i++ {
 		b, kind := m.mutate(valid(enc))
 		runV(verifyIn(200, b, []string{"5", "131071", "131072", "0"}[r.Intn(4)]), "rand:"+kind)
